@@ -37,7 +37,7 @@ def plan(tier):
 
 
 def ncases(tier):
-    return 4000 if tier == "quick" else 25000
+    return 8000 if tier == "quick" else 25000
 
 
 class Clock:
